@@ -69,6 +69,11 @@ func c13(c *Ctx) {
 	// where a section and its CRC_32 end (section_length, CRC only for the table ids that carry one — a TOT has
 	// section_syntax_indicator 0 and still ends with a CRC_32): the input-side gate rules of C09
 	crcgate.InputGate(c.P, r)
+	// "any BCD start time and duration": the EIT start_time / duration and the TOT UTC_time are opaque 40/24-bit fields in the
+	// reference encodings above; their values are decided by the decode rules of C15 (Annex C date formulas, BCD digits,
+	// float64 robustness)
+	decodeDate(c)
+	bcd(c)
 	// the lengths the PAT/PMT writers announce (section_length, program_info_length, ES_info_length, descriptor_length)
 	// equal the bytes they emit: rule A2 level by level, including narrow-arithmetic wrap-around (shared with C09)
 	c09Lengths(c)
